@@ -259,7 +259,8 @@ fn c20_ctpk_truncated_prefixes() {
     kani::cover!(sel == 5);
 }
 
-// @tier thorough
+// @tier offline
+// @offline not registered: solver ran out of memory at 24 GB in the trial runs
 // @timeout 1800
 // @mem 40
 // @bounds strict prefixes of the BCH single-texture image cut at: empty, inside the header, inside the content table, at the payload start (solver-chosen arm)
@@ -311,6 +312,131 @@ fn c20_cgfx_truncated_prefixes() {
     };
     assert!(err, "C20: a prefix that cuts into the texture payload must yield an error");
     kani::cover!(sel == 5);
+}
+
+// ---------------------------------------------------------------------------------------------
+// TPL (GameCube/Wii): payload size table and one CI8 image through the declarative reader
+// ---------------------------------------------------------------------------------------------
+
+use mila::tpl::{Tpl, TplImageFormat};
+
+/// (block width, block height, bits per pixel) of the GameCube texture formats mila can decode
+/// (`ColorFormat::from(TplImageFormat)` recognises RGB5A3, RGBA8 and CI8 only; the size entries of
+/// the unsupported formats are outside the property).
+fn tpl_format_table(sel: u8) -> (TplImageFormat, usize, usize, usize) {
+    match sel {
+        0 => (TplImageFormat::RGB5A3, 4, 4, 16),
+        1 => (TplImageFormat::RGBA8, 4, 4, 32),
+        _ => (TplImageFormat::CI8, 8, 4, 8),
+    }
+}
+
+// @tier quick
+// @timeout 1200
+// @mem 12
+// @bounds the three TPL image formats mila supports (RGB5A3, RGBA8, CI8; solver-chosen), height and width over all of u16
+// @claims the number of payload bytes read for a TPL image is rows x columns x bits-per-pixel / 8 with the height rounded up to the format's block height and the width to its block width (non-square blocks: 8 wide, 4 high)
+// @assume rounding up uses mila's own texture_utils::align on the reference side (decided by c19_block_helpers / c20_tpl_align)
+#[kani::proof]
+#[kani::unwind(4)]
+fn c20_tpl_payload_size() {
+    let sel: u8 = kani::any();
+    kani::assume(sel < 3);
+    let (format, bw, bh, bpp) = tpl_format_table(sel);
+    let height: u16 = kani::any();
+    let width: u16 = kani::any();
+    let (got_bw, got_bh) = format.block_dimensions();
+    assert!(got_bw == bw && got_bh == bh, "C20: TPL block dimensions (width, height) of the format");
+    let rows = mila::verif_hooks::texture_utils::align(height as usize, bh);
+    let cols = mila::verif_hooks::texture_utils::align(width as usize, bw);
+    assert!(format.byte_size_of_image(height, width) == rows * cols * bpp / 8, "C20: TPL payload size must be aligned rows x aligned columns x bits per pixel / 8");
+    kani::cover!(sel == 2 && height == 8 && width == 4);
+}
+
+// @tier quick
+// @timeout 600
+// @mem 8
+// @bounds value over 0..=65535, increment in {4, 8}
+// @claims texture_utils::align rounds up to the next multiple of the increment (and keeps multiples)
+#[kani::proof]
+#[kani::unwind(4)]
+fn c20_tpl_align() {
+    let v: u16 = kani::any();
+    let eight: bool = kani::any();
+    let inc: usize = if eight { 8 } else { 4 };
+    let a = mila::verif_hooks::texture_utils::align(v as usize, inc);
+    assert!(a % inc == 0 && a >= v as usize && a < v as usize + inc, "C20: align must round up to the next multiple of the block size");
+}
+
+const TPL_LEN: usize = 0x8C;
+
+/// One CI8 image, height 8, width 4 (one column of two 8x4 blocks, 64 payload bytes), palette of
+/// four RGB5A3 entries; big-endian; image table, headers, palette and payload not in file order.
+fn tpl_image() -> [u8; TPL_LEN] {
+    let mut img = [0u8; TPL_LEN];
+    let be32 = |img: &mut [u8], at: usize, v: u32| {
+        let b = v.to_be_bytes();
+        for k in 0..4 {
+            img[at + k] = b[k];
+        }
+    };
+    be32(&mut img, 0x00, 0x0020AF30);
+    be32(&mut img, 0x04, 1);
+    be32(&mut img, 0x08, 0x0C);
+    // image table item: image header at 0x20, palette header at 0x14
+    be32(&mut img, 0x0C, 0x20);
+    be32(&mut img, 0x10, 0x14);
+    // palette header: 4 entries, RGB5A3, data at 0x44
+    img[0x14] = 0;
+    img[0x15] = 4;
+    be32(&mut img, 0x18, 2);
+    be32(&mut img, 0x1C, 0x44);
+    // image header: height 8, width 4, CI8, data at 0x4C
+    img[0x20] = 0;
+    img[0x21] = 8;
+    img[0x22] = 0;
+    img[0x23] = 4;
+    be32(&mut img, 0x24, 9);
+    be32(&mut img, 0x28, 0x4C);
+    // palette: four opaque RGB555 colours
+    let pal: [u16; 4] = [0x8000 | 0x7C00, 0x8000 | 0x03E0, 0x8000 | 0x001F, 0x8000 | 0x7FFF];
+    for k in 0..4 {
+        img[0x44 + 2 * k] = (pal[k] >> 8) as u8;
+        img[0x44 + 2 * k + 1] = pal[k] as u8;
+    }
+    // payload: two 8x4 blocks of palette indices
+    for i in 0..64 {
+        img[0x4C + i] = ((i * 7 + i / 8) % 4) as u8;
+    }
+    img
+}
+
+// @tier quick
+// @timeout 1800
+// @mem 16
+// @bounds one CI8 image of height 8 and width 4 (non-square, width not a multiple of the block width) with a 4-entry RGB5A3 palette in a hand-laid-out TPL file; probed pixel symbolic
+// @cbmc --max-field-sensitivity-array-size 512
+// @claims TPL: one texture with the stated dimensions, width x height RGBA pixels, each pixel the palette colour its payload byte selects (block-to-linear, crop)
+// @assume alloc::fmt::format replaced by an empty-string model (error messages only)
+#[kani::proof]
+#[kani::unwind(70)]
+#[kani::stub(alloc::fmt::format, crate::stubs::format_model)]
+fn c20_tpl_single_image() {
+    let img = tpl_image();
+    let t = keep(Tpl::extract_textures(&img)).unwrap();
+    assert!(t.len() == 1, "C20: TPL must return as many textures as the image table holds");
+    assert!(t[0].width == 4 && t[0].height == 8, "C20: TPL texture dimensions");
+    assert!(t[0].pixel_data.len() == 4 * 8 * 4, "C20: TPL texture must have width x height RGBA pixels");
+    let pal = keep(mila::ColorFormat::RGB5A3.decode(&img[0x44..0x4C])).unwrap();
+    let x: usize = kani::any();
+    let y: usize = kani::any();
+    kani::assume(x < 4 && y < 8);
+    let idx = img[0x4C + (y / 4) * 32 + (y % 4) * 8 + x] as usize;
+    let c: usize = kani::any();
+    kani::assume(c < 4);
+    assert!(t[0].pixel_data[(y * 4 + x) * 4 + c] == pal[idx * 4 + c], "C20: TPL pixel must be the palette colour selected by its own payload byte");
+    std::mem::forget(pal);
+    std::mem::forget(t);
 }
 
 // @tier quick
